@@ -29,6 +29,9 @@ class Run:
             import shutil
             shutil.rmtree(self.gen)
         self.gen.mkdir(parents=True)
+        # replay files of earlier runs of this property are stale now
+        for old in (C.VERIF / "replays").glob(f"{prop}-*.json"):
+            old.unlink()
         self.theorems = []          # (name, assumptions)
         self.obligations = 0
         self.discharged = 0
